@@ -33,6 +33,7 @@ type groupCfg struct {
 	MaxInstr int            `json:"max_instr,omitempty"`
 	NoNative bool           `json:"no_native,omitempty"` // harness uses environment stubs that cannot be replayed natively
 	Solver   string         `json:"solver,omitempty"`    // solver back end for this group (default: --solver)
+	Extra    map[string]string `json:"extra,omitempty"`  // other package dir -> harness dir (under /verif/harness) injected there
 }
 
 type propCfg struct {
@@ -63,6 +64,7 @@ type knownFile struct {
 type job struct {
 	fn     *ssa.Function
 	prefix []int
+	mod    []int
 	group  *groupCfg
 }
 
@@ -144,7 +146,11 @@ func cmdCheck(args []string) int {
 			continue
 		}
 		hdir := filepath.Join(*verif, "harness", g.Harness)
-		ld, err := loader.Load(loader.Config{Repo: *repo, Verif: *verif, Pkg: g.Pkg, HarnessDir: hdir, BuildDir: filepath.Join(*verif, "build")})
+		extra := map[string]string{}
+		for k, v := range g.Extra {
+			extra[k] = filepath.Join(*verif, "harness", v)
+		}
+		ld, err := loader.Load(loader.Config{Repo: *repo, Verif: *verif, Pkg: g.Pkg, HarnessDir: hdir, BuildDir: filepath.Join(*verif, "build"), Extra: extra})
 		if err != nil {
 			fatal = append(fatal, "load "+g.Pkg+": "+err.Error())
 			continue
@@ -181,14 +187,14 @@ func cmdCheck(args []string) int {
 			if len(n2) == 2 {
 				for i := 0; i < n2[0]; i++ {
 					for j := 0; j < n2[1]; j++ {
-						jobs = append(jobs, job{fn: f, prefix: []int{i, j}, group: g})
+						jobs = append(jobs, job{fn: f, prefix: []int{i, j}, mod: []int{n2[0], n2[1]}, group: g})
 					}
 				}
 			} else if n <= 1 {
 				jobs = append(jobs, job{fn: f, group: g})
 			} else {
 				for i := 0; i < n; i++ {
-					jobs = append(jobs, job{fn: f, prefix: []int{i}, group: g})
+					jobs = append(jobs, job{fn: f, prefix: []int{i}, mod: []int{n}, group: g})
 				}
 			}
 		}
@@ -538,6 +544,7 @@ func runJob(prog *ssa.Program, jb job, solver string, thorough bool, deadline ti
 	opts.Thorough = thorough
 	opts.Witnesses = 3
 	opts.ForcePrefix = jb.prefix
+	opts.ForceMod = jb.mod
 	if jb.group.MaxInstr > 0 {
 		opts.MaxInstr = jb.group.MaxInstr
 	}
